@@ -131,7 +131,7 @@ def c02(ctx):
     ctx.bounds.update(CONC_BOUNDS)
     ctx.bounds['oracle'] = 'after all threads: every count equals the number of owners, every debt slot of every node is empty'
     ctx.outside += CONC_OUTSIDE
-    conc_set(ctx, ['a_keep', 'swap2'] if ctx.tier == 'quick' else ['a_keep', 'swap2', 'a_fast', 'a_full', 'b_held3', 'moved_guard', 'cas_aba', 'rcu2'])
+    conc_set(ctx, ['a_keep', 'swap2'] if ctx.tier == 'quick' else ['a_keep', 'swap2', 'a_fast', 'a_full', 'b_held3', 'moved_guard'])
     seq_run(ctx, 'c14_default_2', covers=(1, 2))
     seq_run(ctx, 'c14_cursor')
     seq_run(ctx, 'c10_seq_threads')
@@ -142,7 +142,7 @@ def c03(ctx):
     ctx.bounds.update(CONC_BOUNDS)
     ctx.bounds['oracle'] = 'writer publishes STARTED/DONE progress flags (SeqCst); a load returns a value index between DONE-before-the-call and STARTED-after-it; two loads of one thread never go backwards'
     ctx.outside += CONC_OUTSIDE
-    conc_set(ctx, ['lin1'] if ctx.tier == 'quick' else ['lin1', 'lin1_fb', 'lin2'])
+    conc_set(ctx, ['lin1'] if ctx.tier == 'quick' else ['lin1', 'lin1_fb', 'lin_fb_own'], timeout_s=1200)
 
 
 @prop('C04')
@@ -150,7 +150,7 @@ def c04(ctx):
     ctx.bounds.update(CONC_BOUNDS)
     ctx.bounds['oracle'] = 'two concurrent swaps / cas+swap+store: every value put in comes out exactly once (returned handle or final content), returned handles own a full reference'
     ctx.outside += CONC_OUTSIDE
-    conc_set(ctx, ['swap2'] if ctx.tier == 'quick' else ['swap2', 'cas_aba', 'rcu2'])
+    conc_set(ctx, ['swap2'] if ctx.tier == 'quick' else ['swap2', 'cas3'], timeout_s=1200)
 
 
 @prop('C05')
@@ -161,7 +161,7 @@ def c05(ctx):
     if ctx.tier != 'quick':
         ctx.bounds.update(CONC_BOUNDS)
         ctx.outside += CONC_OUTSIDE
-        conc_set(ctx, ['cas_aba'])
+        conc_set(ctx, ['cas3'], timeout_s=1200)
 
 
 @prop('C06')
@@ -171,7 +171,8 @@ def c06(ctx):
     ctx.outside += CONC_OUTSIDE
     seq_run(ctx, 'c18_rcu', flavor='unw')
     if ctx.tier != 'quick':
-        conc_set(ctx, ['rcu2'])
+        ctx.bounds['address_reuse'] = 'scenario rcu_reuse: the other thread re-creates a pool object (same address, new content) once it is dead'
+        conc_set(ctx, ['rcu_reuse'], timeout_s=1200)
 
 
 @prop('C12')
@@ -180,7 +181,7 @@ def c12(ctx):
     ctx.bounds['scenario'] = 'reader of A on the fallback path (slots full of guards of B) || writer of B walking its node; plus sequential sharing of one value by two containers'
     ctx.outside += CONC_OUTSIDE
     seq_run(ctx, 'c12_shared_value')
-    conc_set(ctx, ['iso_b'])
+    conc_set(ctx, ['iso_b'] if ctx.tier == 'quick' else ['iso_b', 'iso_ba'], timeout_s=1200)
 
 
 def seq_run(ctx, entry, flavor='rel', features=(), covers=(1,), **kw):
@@ -214,6 +215,9 @@ def c16(ctx):
     ctx.bounds.update({'program_length': 3 if ctx.tier == 'quick' else 5, 'caches': 'cache, clone, mapped cache', 'pool_values': 3})
     seq_run(ctx, 'c16_seq_3' if ctx.tier == 'quick' else 'c16_seq_5', max_paths=400000)
     seq_run(ctx, 'c16_option')
+    if ctx.tier != 'quick':
+        ctx.bounds['concurrent'] = 'cache.load() on one thread against two stores with progress flags on another (all SC interleavings): freshness after a completed store'
+        conc_run(ctx, SPECS['cache_rt'], loop_bound=3, timeout_s=900)
 
 
 @prop('C17')
@@ -336,7 +340,7 @@ def c09(ctx):
                                     'first-use store by a new thread while another thread exited and a writer is frozen inside the debt walk (thorough)'],
                        'memory_model': 'SC'})
     ctx.outside += ['subjects other than store/swap started from a quiescent thread', 'more than 2 frozen threads']
-    names = [('solo_store', 2), ('solo_fb', 2)] if ctx.tier == 'quick' else [('solo_store', 2), ('solo_fb', 2), ('solo_cold', 3)]
+    names = [('solo_store', 2), ('solo_cold', 3)] if ctx.tier == 'quick' else [('solo_store', 2), ('solo_fb', 2), ('solo_cold', 3)]
     for n, subj in names:
         s = ctx.session('rel')
         r = conc.run_conc(s, SPECS[n], loop_bound=2, subject=subj, timeout_s=900)
